@@ -249,3 +249,14 @@ package bbolt
 //@   ensures [rolledback] err != nil ==> tx.db == nil && calls("(*Tx).rollback", tx) == old(calls("(*Tx).rollback", tx)) + 1
 //@   ensures [ok] err == nil ==> tx.db == old(tx.db) && calls("(*Tx).rollback", tx) == old(calls("(*Tx).rollback", tx)) && calls("freelist.Interface.Write", tx.db.freelist) == old(calls("freelist.Interface.Write", tx.db.freelist)) + 1
 //@   ensures [disk] unsynced == old(unsynced) && nwrites == old(nwrites)
+
+//@ func (*Tx).write
+//@   returns (err)
+//@   props C01 C06 C08
+//@   requires tx.db != nil && tx.db.pageSize >= 512 && tx.db.pageSize <= 16777216
+//@   ensures [synced] err == nil && !tx.db.NoSync ==> unsynced == 0
+//@   ensures [nosyncskipped] err == nil && tx.db.NoSync ==> nsyncs == old(nsyncs)
+//@   ensures [syncedonce] err == nil && !tx.db.NoSync ==> nsyncs == old(nsyncs) + 1
+//@   ensures [same] tx.db == old(tx.db) && tx.meta == old(tx.meta) && tx.writable == old(tx.writable)
+//@   skip tx.go:544 because UnsafeByteSlice views the page buffer (A-unsafe); chunk sizes are bounded by MaxAllocSize-1 by construction
+//@   skip tx.go:577 because UnsafeByteSlice views the page buffer (A-unsafe)
